@@ -468,7 +468,7 @@ func (propC19) Run(ctx *Ctx, index int) {
 
 func (propC19) Meta() PropMeta {
 	return PropMeta{
-		Rule: "each case = 2-8 (thorough 2-16) tasks, each creating its own notation, collections, iterators, collators and sorters through the public constructors and running a generated script (1-6 operations drawn from the families build, mutate, search, sort, compare/rank, format incl. String()/FormatValue/module-level FormatValue, parse, iterate, class-accessor first use) over element types int, string, []int and any, collection sizes 0-3, 40 or 200, values nested up to nine levels for formatting, first use of up to sixteen further class types; in two cases of five the tasks instead each work on one of 22 instances that main derived from common bases through the library's own functions (set operations, Concatenate, Merge, Extract, GetValues, GetKeys, copies, iterators); a run concentrates on one or two families and mostly one element type (swarm). The scripts are first executed serially in a fresh simulation (reference), then concurrently under one seeded schedule in which, additionally, reads/writes of variables already touched by two tasks are preemption points with a per-run probability (0, 2, 10 or 30 percent) and x++ / x op= y on such variables is split into load, preemption point, store. Every run starts from first-use state of the class registries (generated SimReset). Oracles: happens-before data-race detection over all tracked struct fields and package variables; every task's result log equals its serial reference; all callers of a class accessor for one type parameter got the identical class. Non-trivial = at least 3 context switches; distinct = distinct (program, schedule traces).",
+		Rule: "each case = 2-8 (thorough 2-16) tasks, each creating its own notation, collections, iterators, collators and sorters through the public constructors and running a generated script (1-6 operations drawn from the families build, mutate, search, sort, compare/rank, format incl. String()/FormatValue/module-level FormatValue, parse, iterate, class-accessor first use) over element types int, string, []int and any, collection sizes 0-3, 40 or 200, values nested up to nine levels for formatting, first use of up to sixteen further class types; in two cases of five the tasks instead each work on one of 22 instances that main derived from common bases through the library's own functions (set operations, Concatenate, Merge, Extract, GetValues, GetKeys, copies, iterators), there also with a structure element type holding a slice and a map; a run concentrates on one or two families and mostly one element type (swarm). The scripts are first executed serially in a fresh simulation (reference), then concurrently under one seeded schedule in which, additionally, reads/writes of variables already touched by two tasks are preemption points with a per-run probability (0, 2, 10 or 30 percent) and x++ / x op= y on such variables is split into load, preemption point, store. Every run starts from first-use state of the class registries (generated SimReset). Oracles: happens-before data-race detection over all tracked struct fields and package variables; every task's result log equals its serial reference; all callers of a class accessor for one type parameter got the identical class. Non-trivial = at least 3 context switches; distinct = distinct (program, schedule traces).",
 		Assumptions: []string{
 			"Go maps with more than one entry are kept out of the scripts (iteration order is not a seam)",
 			"race oracle granularity is the struct field / package variable / captured local / slice element; accesses through reflection and inside the standard library are represented by the enclosing field",
